@@ -226,7 +226,10 @@ EntityTranslation RSForm::DeleteDuplicatesInternal() {
           }
           std::string copyAlias = rsCst2.alias;
           if (EraseInternal(copy)) {
-            translation.Insert(copy, original);
+            // Note: earlier duplicates mapped to the erased copy are redirected to its original
+            EntityTranslation step{};
+            step.Insert(copy, original);
+            translation.SuperposeWith(step);
             core.TranslateAll(CreateTranslator({ { copyAlias, rsCst1.alias } }));
             flag = true;
             break;
